@@ -242,7 +242,7 @@ def campaign(pid, plans, what, extra_violation=None):
             sch = rnd.sample(sch, pl["limit"])
         cases = [{"msgs": pl["msgs"], "plan": pl["plan"], "procs": list(pl.get("procs", pl.get("crashers", ()))),
                   "sched": s["sched"], "rlog": s["rlog"], "delivered": s["delivered"], "slog": s.get("slog", []), "falseOk": s.get("falseOk", False),
-                  "tmo": timeouts(pl["plan"], s["sched"])} for s in sch]
+                  "tmo": timeouts(pl["plan"], s["sched"]), "attach": bool(pl.get("attach"))} for s in sch]
         # the first schedules tell whether the code still follows the model's system-call protocol at all; when
         # nearly none of them can be executed as generated, the rest would only cost time (each abandoned schedule
         # waits for its actors) and the comparison falls back to the call-level oracles
